@@ -87,7 +87,7 @@ theorem C19_volatile_history (c : Cfg) (ops : List Op) :
 /-- **Retry.** From *any* feature state: after model `m` enters `s` from another state, let `mid` be
 any further history that contains no entry of `s` by `m` from another state — arbitrary exits, entries of
 other states, anything other models do (to `s` too), and `k` self re-entries of `s` by `m`. Then the
-entry from elsewhere is admitted, and the next, `(k+1)`-th, consecutive self re-entry runs the enter
+entry from elsewhere is allowed, and the next, `(k+1)`-th, consecutive self re-entry runs the enter
 callbacks iff `k + 1 ≤ retries`, and invokes `on_failure` instead iff `k + 1 > retries`.
 (`hOk`: the entry is not one Error rejects.) -/
 theorem C19_retry_exact (c : Cfg) (s m : Nat) (hR : .retry ∈ c.feats) (hnd : c.feats.Nodup)
@@ -189,7 +189,7 @@ def outcomes (c : Cfg) : List Op → FS → List Outcome
   | [], _ => []
   | o :: r, st => (step c o st).2 :: outcomes c r (step c o st).1
 
--- hypotheses of C19_retry_exact are met and both sides of the iff occur: 2 re-entries admitted, 3rd refused,
+-- hypotheses of C19_retry_exact are met and both sides of the iff occur: 2 re-entries allowed, 3rd refused,
 -- with another model's ops and an exit interleaved; counting restarts after an entry from elsewhere
 example : (cfg all).feats.Nodup ∧ 0 < ((cfg all).args 1).retries ∧ (cfg all).hasOut 1 = true := by decide
 example : outcomes (cfg all)
@@ -218,7 +218,7 @@ example : (runOps (cfg [.retry, .volatile])
 -- likewise an entry rejected by Error: object bound iff Volatile comes first
 example : ((runOps (cfg [.volatile, .error]) [.enter 2 0 0] FS.init).hooks 0 0,
            (runOps (cfg [.error, .volatile]) [.enter 2 0 0] FS.init).hooks 0 0) = (some 0, none) := by decide
--- a model placed in a Retry state without an entry (initial state) gets one more admitted re-entry
+-- a model placed in a Retry state without an entry (initial state) gets one more allowed re-entry
 example : outcomes (cfg all) [.enter 1 0 1, .enter 1 0 1, .enter 1 0 1, .enter 1 0 1] FS.init
     = [.entered, .entered, .entered, .failed] := by decide
 -- FeatureFree is inhabited on a machine with every feature
